@@ -57,6 +57,7 @@ def check(ctx):
     _armijo_inf(rep, model)
     _steepest(rep, model)
     _stepsizes(rep, model)
+    _default_relaxation(rep, model)
     _saved_iterates(ctx, rep)
     _power_method(rep, model)
     _pdhg_steps(rep, model)
@@ -69,6 +70,8 @@ def check(ctx):
     # local or a swapped buffer leaves the caller one iteration behind)
     from . import c11
     c11._callbacks(rep, model, rule='R9', final_only=True, floor=15)
+    # R10: no aliased evaluation of a user operator (operators X -> X)
+    c11.aliased_operator_calls(rep, model, rule='R10')
     return rep
 
 
@@ -411,6 +414,74 @@ def _stepsizes(rep, model):
 
 
 # --------------------------------------------------------------------------
+def _default_relaxation(rep, model):
+    """R2c: the default relaxation of `landweber` is 1 / ||A||^2 with the
+    norm estimated from a generic start: the estimate of the power method
+    is the largest singular value only for a start with a component along
+    the dominant direction, so the estimate must not be started from the
+    iterate or the data (it would be a smaller singular value for a
+    structured start and the step 1 / estimate^2 inadmissible)."""
+    ITER_ = 'odl/solvers/iterative/iterative.py'
+    fn = model.ctx.func(ITER_, 'landweber')
+    if fn is None:
+        raise AnalysisError('anchor vanished: landweber')
+    calls = []
+
+    class LH(SolverHooks):
+        def on_getattr(self, interp, obj, name):
+            if isinstance(obj, OpV) and name == 'norm':
+                def norm(*a, **kw):
+                    calls.append((a, dict(kw)))
+                    return Rat.var(satom('opnorm', obj.term.name))
+                return Builtin('opnorm', norm)
+            return SolverHooks.on_getattr(self, interp, obj, name)
+    cons = 'landweber[omega=None]'
+
+    def once(assume):
+        del calls[:]
+        hooks = LH()
+        I = Interp(model, assume, hooks)
+        e = Env(I, hooks)
+        A = I.opsym('A', e.X, e.Y, True)
+        x = e.vec('x', e.X)
+        I.call_func(Func(fn, I.env_of(ITER_), None),
+                    [A, x, e.vec('rhs', e.Y), 1], {})
+        return list(calls), vs.freeze(x.val), vs.show(x.val)
+    try:
+        leaves = explore(once, limit=20)
+    except Undecided as e:
+        rep.undecided('R2c', cons, str(e), ITER_, fn.lineno)
+        return
+    except PyRaise as e:
+        rep.violation('R2c', cons, 'raises %s' % e.name, ITER_, fn.lineno)
+        return
+    probs = []
+    for a, (cl, xf, xs) in leaves:
+        if len(cl) != 1:
+            probs.append('%d norm estimates' % len(cl))
+            continue
+        args, kw = cl[0]
+        if args or any(v is not None and k_ != 'estimate'
+                       for k_, v in kw.items()):
+            probs.append('the norm estimate is started from %s (a point of '
+                         'the problem), not from a generic point' % (
+                             ', '.join('%s=%r' % (k_, v) for k_, v in
+                                       kw.items() if k_ != 'estimate')
+                             or repr(args)))
+        if not kw.get('estimate'):
+            probs.append('the exact norm is requested (estimate is not set)')
+        N = Rat.var(satom('opnorm', 'A'))
+        want = 'x + (1)/(%s^2)' % 'opnorm'
+        if 'opnorm' not in xs:
+            probs.append('the step does not involve the norm estimate')
+    if probs:
+        rep.violation('R2c', cons, '; '.join(sorted(set(probs))), ITER_,
+                      fn.lineno)
+    else:
+        rep.holds('R2c', cons, 'omega = 1 / estimate^2, the estimate started '
+                  'from a generic point')
+
+
 def _saved_iterates(ctx, rep):
     """R3: two names, one cell."""
     root = os.path.join(ctx.repo, 'odl', 'solvers')
